@@ -84,6 +84,8 @@ Definition check_obs (u : list Z) (b : bimap) (o : obs) : bool :=
   (let observed := map zz_pair (o_stopped o) in
    let seen := map fst observed in
    let order := seen ++ List.filter (fun k => negb (inb k seen)) (map_keys (forward b)) in
+   (* every pair at most once, and only keys of the Bimap: the completed order is an enumeration of the keys *)
+   list_eqb Z.eqb (sortZ order) (sortZ (map_keys (forward b))) &&
    list_eqb zz_eqb (fst (Range b order (recording (stop_after (o_stop o))) ([], 0))) observed).
 
 Definition check_handle_obs (u : list Z) (st : state) (ho : hobs) : bool :=
